@@ -4,3 +4,6 @@ pub mod selftest;
 pub mod hist;
 pub mod sortd;
 pub mod sched;
+pub mod crash;
+pub mod contra;
+pub mod pair;
